@@ -765,13 +765,14 @@ def history_case(name, rng, tier, variant=None):
     B = perturbed(kind)
     want_jac = c.get("jac", True) and sp["jac"]
 
-    def evaluate(prob):
+    def evaluate(prob, nlin=1):
         with quiet():
             prob.run_model()
         o = flat_cat(comp_outputs(prob, outs), outs)
         J = None
         if want_jac:
-            Jd = comp_jacobian(prob, outs, innames)
+            for _ in range(nlin):       # consecutive linearisations without an intervening run_model
+                Jd = comp_jacobian(prob, outs, innames)
             J = np.concatenate([np.concatenate([Jd[(oo, ii)].ravel() for ii in innames]) for oo in outs])
         return o, J
 
@@ -786,8 +787,9 @@ def history_case(name, rng, tier, variant=None):
         if want_jac:
             comp_jacobian(live, outs, innames); seq.append("linearize")
     setall(live, B); seq.append("B(%s)" % kind)
-    oL, JL = evaluate(live)
-    if rng.uniform() < 0.5:
+    nlin = int(rng.integers(1, 4))
+    oL, JL = evaluate(live, nlin); seq.append("run, linearize x%d" % nlin)
+    if rng.uniform() < 0.3:
         oL, JL = evaluate(live); seq.append("again")
     fresh = comp_problem(c["factory"](), B)
     oF, JF = evaluate(fresh)
